@@ -115,6 +115,24 @@ CHECKS: dict[str, dict] = {
         "assumptions": ["the limiter's own bit accounting (330 + 10 x payload hex chars) is taken as the definition of a frame's bits",
                         "the 'one frame per write already pending' allowance is the bits of the other accepted-but-unwritten frames at the time of a write"],
     },
+    "C10": {
+        "specs": [("filt", "main", 1600, 60000)],
+        "budget": (120, 1500),
+        "rule": "one run = one drawn configuration (block list / known list overlapping or not, enforcement on/off incl. "
+                "enforced-but-empty, active gateway listed / listed with class HGI / unlisted / block-listed) on a real "
+                "Gateway, then 30-160 real corpus frames re-addressed over a pool of listed/unlisted/blocked ids of the same "
+                "device types (plus 63:262142, --:------, 18:000730), some before the signature handshake, and 3-15 "
+                "send_cmd calls with src/dst from every class; oracle = independent reference allowed(src) and allowed(dst) "
+                "vs what reached the application handler / serial.write, and gwy.device_by_id. distinct = distinct "
+                "(mode, gateway class, wanted/unwanted sequence); non-trivial = a filter is actually in force",
+        "real": ["ramses_rf.Gateway (+ Engine)", "ramses_tx.protocol._DeviceIdFilterMixin._is_wanted_addrs/_set_active_hgi",
+                 "ramses_tx.schemas.select_device_filter_mode", "ramses_rf.dispatcher", "Gateway.get_device.check_filter_lists",
+                 "PortTransport"],
+        "stub": STUB_RF,
+        "assumptions": ["frames received before the handshake completes are judged only when the verdict does not depend on "
+                        "whether the active gateway was already known", "a block-listed active gateway counts as unknown (the "
+                        "library refuses to adopt it)"],
+    },
 }
 
 
@@ -169,11 +187,15 @@ MANIFEST_TEXT["C11"] = {
     "text": "Seeded search over arrival patterns; every window of the recorded write history is checked against the stated "
             "allowances (O(n^2) windows per run), plus conservation and order.", "design_ref": "DESIGN.md 7/C11",
     "technique": _TECH, "note": "Real constants; virtual time makes 20-minute drains cost < 1 s."}
+MANIFEST_TEXT["C10"] = {
+    "text": "Seeded search over filter configurations x traffic classes on a real Gateway; a 6-line reference decides wanted/"
+            "unwanted for receive and send, device creation is read from gwy.device_by_id.", "design_ref": "DESIGN.md 7/C10",
+    "technique": _TECH, "note": "The reference was checked against _is_wanted_addrs on 90k random samples of the pinned tree (round 0)."}
 NOT_APPLICABLE = {
     "C03": "pure function of constructor arguments (decode(build(args)) = args): no schedule, clock, fault, history or second "
            "party to simulate; exhaustive/argument-space enumeration is outside this technique (DESIGN.md 8)",
     "C04": "pure scalar codec inverses over finite enumerable domains: no nondeterminism for a simulator to control "
            "(DESIGN.md 8)",
 }
-for _p in ("C10", "C12", "C13", "C14", "C15", "C16", "C17", "C18", "C19", "C20"):
+for _p in ( "C12", "C13", "C14", "C15", "C16", "C17", "C18", "C19", "C20"):
     NOT_APPLICABLE.setdefault(_p, "applicable, but its engine is not built yet in this round (see DESIGN.md 12 build order)")
